@@ -434,16 +434,53 @@ func (w *Walker) Term(v reflect.Value) string {
 }
 
 // keySortString orders map entries canonically: scalar keys by their printed value, keys that
-// hold references (interfaces, structs / arrays with pointers, pointers) by the canonical
-// string of the graph below them - never by addresses.
-func keySortString(k reflect.Value) string {
-	switch k.Kind() {
+// hold references (interfaces, structs / arrays with pointers, pointers) by a bounded-depth
+// signature of their contents (scalars reachable within three dereferences; never addresses,
+// and never a full walk: the graph below a key may be cyclic through this very map).
+func keySortString(k reflect.Value) string { return sig(k, 3) }
+
+func sig(v reflect.Value, d int) string {
+	switch v.Kind() {
 	case reflect.Bool, reflect.Int, reflect.Int8, reflect.Int16, reflect.Int32, reflect.Int64,
 		reflect.Uint, reflect.Uint8, reflect.Uint16, reflect.Uint32, reflect.Uint64, reflect.Uintptr,
 		reflect.Float32, reflect.Float64, reflect.String:
-		return fmt.Sprintf("%v", k.Interface())
+		return fmt.Sprintf("%v", v)
+	case reflect.Ptr:
+		if v.IsNil() {
+			return "*nil"
+		}
+		if d == 0 {
+			return "*"
+		}
+		return "*" + sig(v.Elem(), d-1)
+	case reflect.Interface:
+		if v.IsNil() {
+			return "i:nil"
+		}
+		return "i:" + v.Elem().Type().String() + ":" + sig(v.Elem(), d)
+	case reflect.Struct:
+		if d == 0 {
+			return "{}"
+		}
+		parts := []string{}
+		for i := 0; i < v.NumField(); i++ {
+			if v.Type().Field(i).PkgPath == "" {
+				parts = append(parts, sig(v.Field(i), d-1))
+			}
+		}
+		return "{" + strings.Join(parts, ",") + "}"
+	case reflect.Array:
+		parts := []string{}
+		for i := 0; i < v.Len(); i++ {
+			parts = append(parts, sig(v.Index(i), d))
+		}
+		return "[" + strings.Join(parts, ",") + "]"
+	case reflect.Map:
+		return fmt.Sprintf("m#%d", v.Len())
+	case reflect.Slice:
+		return fmt.Sprintf("s#%d", v.Len())
 	}
-	return Canon(k)
+	return v.Kind().String()
 }
 
 // Canon is a canonical string of the graph below v (slices split, own
